@@ -105,6 +105,7 @@ type Link struct {
 	haveStale    bool
 	Cmds         [][]byte // raw commands as sent by the terminal
 	Delivered    [][]byte // responses as delivered to the terminal
+	Genuine      [][]byte // responses as produced by the chip (nil when the chip never saw the command)
 	FaultAt      map[int]string
 	// Hook, when set, runs before each exchange (scheduler yield point / invariants).
 	Hook func(k int)
@@ -257,6 +258,7 @@ func (l *Link) Transceive(cla, ins, p1, p2 int, data []byte, le int, encodedData
 		}
 	}
 	l.history = append(l.history, genuine)
+	l.Genuine = append(l.Genuine, genuine)
 	l.Delivered = append(l.Delivered, bytes.Clone(resp))
 	l.Log.Add("x", cmd, genuine, resp)
 	l.N++
